@@ -1988,7 +1988,8 @@ impl Runner {
         };
         let n0 = self.steps.len();
         self.inject(src, bytes, k, maker, false, None).await;
-        if mapped && matches!(src, SocketAddr::V6(_)) {
+        // (a peer that speaks from an IPv6 address has no mapped form: the replay then comes from its own address)
+        if mapped && src != orig_src && matches!(src, SocketAddr::V6(_)) {
             // C02: presenting a datagram from another source address never produces a delivered message
             if self.steps[n0..].iter().any(|s| s.outs.iter().any(|o| matches!(o, AOut::Request(..) | AOut::Response(..) | AOut::Established(..)))) {
                 self.w.failures.push(("C02".into(), "a datagram presented from the IPv4-mapped form of its source address was accepted".into()));
